@@ -19,7 +19,7 @@ RULE = (
     'subtracted from every step, first frame kept).  Non-trivial = at least two species, reference set a strict '
     'subset of the atoms; distinct = SHA-1 of (walk, species, argument form).'
 )
-RULE += ' Added in rounds 6-10: a further drift() query for another reference set on the same trajectory; nearly static crystals with a common drift of 1e-10..1e-8 per frame; collections with repeated names; a non-reference atom with NaN coordinates.'
+RULE += ' Added in rounds 6-10: a further drift() query for another reference set on the same trajectory; nearly static crystals with a common drift of 1e-10..1e-8 per frame; collections with repeated names; a non-reference atom with NaN coordinates. Round 12: "none" also spelled as None / empty tuple / empty list / empty string arguments (reference = every atom, or a loud refusal).'
 ASSUMPTIONS = [
     'steps (including the injected drift) stay below 0.45 cell so that minimum-image steps are the true steps',
     'tolerances: residual drift 1e-12, positions 1e-9 (circular)',
@@ -112,8 +112,12 @@ def run_unit(unit, rng, ctx):
         other = {'fixed_species': [s for s in symbols if s in ref_symbols]}
     else:
         ref_symbols = set(symbols)
-        kwargs = {}
+        # "none": no argument at all, or the arguments spelled out as None / an empty collection (a default taken
+        # from a configuration); an empty selection names no reference set, so the reference is every atom
+        kwargs = [{}, {}, {'fixed_species': None}, {'fixed_species': ()}, {'fixed_species': []}, {'floating_species': []}, {'floating_species': None, 'fixed_species': ''}, {'floating_species': ()}][int(rng.integers(8))]
         other = None
+        if any(v is not None for v in kwargs.values()):
+            ctx.count('none_spelled_as_empty_collection')
     ref = np.array([n in ref_symbols for n in names])
     what = f'{kind}{"/rot" if rot else ""} T={T} species={names} {mode}={kwargs} ({species_mode})'
 
@@ -126,7 +130,14 @@ def run_unit(unit, rng, ctx):
         traj = gen.make_trajectory(m, sp, Uin - np.floor(Uin) if rng.integers(2) else Uin.copy(), time_step=dt, metadata=dict(meta))
         if rng.integers(2):
             _ = traj.displacements  # start from the other internal representation
-        drift = np.asarray(traj.drift(**kwargs))
+        try:
+            drift = np.asarray(traj.drift(**kwargs))
+        except (ValueError, TypeError) as e:
+            if mode == 'none' and kwargs:
+                # an explicit empty selection may be refused loudly; it may not silently give another answer
+                ctx.count('empty_selection_refused_loudly')
+                return None
+            raise
         corr = traj.apply_drift_correction(**kwargs)
         d_want, c_want = model(Uin)
         ctx.check(drift.shape == d_want.shape and bool(np.all(np.isfinite(drift))) and float(np.abs(drift - d_want).max()) <= (1e-13 if slow else 1e-9), f'{what}{tag}: drift() is not the mean per-frame displacement of the reference species (finite={bool(np.all(np.isfinite(drift)))})', {'names': names, 'ref': ref, 'got': drift[:5], 'want': d_want[:5]})
@@ -179,6 +190,8 @@ def run_unit(unit, rng, ctx):
     gs[0] = 0
     g = np.cumsum(gs, axis=0) + (rng.uniform(-1, 1, size=(1, 1, 3)) if rng.integers(2) else 0.0)
     cd1 = run(U + g, ' [+rigid drift]')
+    if cd0 is None or cd1 is None:
+        cd0 = cd1 = np.zeros(1)
     ctx.check(float(np.abs(cd0 - cd1).max()) <= 1e-9, f'{what}: corrected motion depends on an injected rigid translation (max dev {np.abs(cd0 - cd1).max():.3e})', {'names': names})
     ctx.count(f'mode:{mode}')
     ctx.count(f'form:{form}')
